@@ -527,6 +527,14 @@ class DynDiGraph(nx.DiGraph):
             raise nx.NetworkXError(
                 "The t argument must be specified.")
 
+        if type(t) != list:
+            t = [t, t]
+
+        # reject the update before touching any state
+        if u in self._succ and v in self._succ[u] and t[0] < self._succ[u][v]['t'][-1][0]:
+            raise ValueError("The specified interaction extension is broader than "
+                             "the ones already present for the given nodes.")
+
         if u not in self._succ:
             self._succ[u] = self.adjlist_inner_dict_factory()
             self._pred[u] = self.adjlist_inner_dict_factory()
@@ -535,9 +543,6 @@ class DynDiGraph(nx.DiGraph):
             self._succ[v] = self.adjlist_inner_dict_factory()
             self._pred[v] = self.adjlist_inner_dict_factory()
             self._node[v] = {}
-
-        if type(t) != list:
-            t = [t, t]
 
         for idt in [t[0]]:
             if self.has_edge(u, v) and not self.edge_removal:
@@ -571,10 +576,6 @@ class DynDiGraph(nx.DiGraph):
                     del self.time_to_edge[app[-1][0] + 1][(u, v, "+")]
 
             else:
-                if t[0] < app[-1][0]:
-                    raise ValueError("The specified interaction extension is broader than "
-                                     "the ones already present for the given nodes.")
-
                 if t[0] <= max_end < t[1]:
                     app[-1][1] = t[1]
                     if max_end + 1 in self.time_to_edge:
